@@ -64,6 +64,7 @@ def runHist (j : Lean.Json) : Except String Lean.Json := do
   let funcs ← (← (← j.getObjVal? "funcs").getArr?).mapM parseFunc
   let steps ← (← j.getObjVal? "steps").getArr?
   let mut w : World := { fs := fs, dirSize := dirSize }
+  let mut kw : KWorld := { fs := fs, dirSize := dirSize }
   let mut outs : Array Lean.Json := #[]
   for st in steps do
     let a ← st.getArr?
@@ -75,7 +76,10 @@ def runHist (j : Lean.Json) : Except String Lean.Json := do
         let mtime := match getNat a[4] with | .ok n => some n | .error _ => none
         let fs' ← applyMut w.fs (← a[1].getStr?) (parsePath (← a[2].getStr?)) bytes mtime
         w := { w with fs := fs' }
-        outs := outs.push (Json.mkObj [("tree", showTree w.fs), ("rec", showRec w cf)])
+        let kfs' ← applyMut kw.fs (← a[1].getStr?) (parsePath (← a[2].getStr?)) bytes mtime
+        kw := { kw with fs := kfs' }
+        outs := outs.push (Json.mkObj [("tree", showTree w.fs), ("rec", showRec w cf),
+          ("impl", Json.mkObj [("tree", showTree kw.fs)])])
       else throw "bad mut"
     | "build" =>
       -- ["build", buildName, versions(wire dict), rootIdx, arg]
@@ -93,7 +97,12 @@ def runHist (j : Lean.Json) : Except String Lean.Json := do
         let prog := denoteFunc verOf (funcs'.size + 1) funcs' rootIdx arg (.obj [])
         let out := Spec.build w cf name prog
         w := out.world
-        outs := outs.push (Json.mkObj [
+        let kout := Impl.build kw cf name versions prog
+        kw := kout.world
+        let implJ := Json.mkObj [("res", showRes kout.res), ("tree", showTree kw.fs),
+          ("inv", .arr (kout.invLog.map showInv).toArray),
+          ("cache", match kout.written with | some c => showCache c | none => .null)]
+        outs := outs.push (Json.mkObj [("impl", implJ),
           ("res", showRes out.res), ("tree", showTree w.fs),
           ("inv", .arr (out.invLog.map showInv).toArray), ("obl", .bool out.obligation),
           ("trace", .arr (out.trace.map showCall).toArray), ("rec", showRec w cf)])
@@ -103,7 +112,10 @@ def runHist (j : Lean.Json) : Except String Lean.Json := do
         let name := match a[1] with | .str s => some s | _ => none
         let out := Spec.clean w cf name
         w := out.world
-        outs := outs.push (Json.mkObj [("res", showRes out.res), ("tree", showTree w.fs), ("rec", showRec w cf)])
+        let kout := Impl.clean kw cf name
+        kw := kout.world
+        outs := outs.push (Json.mkObj [("res", showRes out.res), ("tree", showTree w.fs), ("rec", showRec w cf),
+          ("impl", Json.mkObj [("res", showRes kout.res), ("tree", showTree kw.fs)])])
       else throw "bad clean"
     | k => throw s!"bad step {k}"
   return Json.mkObj [("steps", .arr outs)]
